@@ -367,9 +367,15 @@ func main() {
 			tier = args[i]
 		case "--replay":
 			i++
+			if i >= len(args) {
+				die(2, "--replay needs a file")
+			}
 			replay = args[i]
 		case "--only":
 			i++
+			if i >= len(args) {
+				die(2, "--only needs a value")
+			}
 			only = args[i]
 		case "--keep":
 			keep = true
